@@ -28,10 +28,12 @@ CLAIMED = {
     'C01': dict(text='Bounded symbolic execution of the real CeiloChunk.metar_msg on directly constructed chunks whose '
                      'table rows (okta, base) are symbolic and whose significant/code columns are filled by the real '
                      'icao/wmo functions: for every table up to the row bound, every MSA and flag value the solver shows '
-                     'the grammar, the ordering, the 1-3-5 ranks and the exclusion of zero-okta and at/above-MSA rows.',
+                     'the grammar, the ordering, the 1-3-5 ranks and the exclusion of zero-okta and at/above-MSA rows; plus the whole '
+                     'metarize() (sort order, significance, codes, with an MSA set) and the whole chain on small tables, each message against its table.',
                 ref='DESIGN.md 4/C01', note=TRUST + '; message text handled as fragment strings (formatted symbolic integers)'),
     'C02': dict(text='Same exploration shape as C01 with the C02 clause set (first group = lowest reportable layer, '
-                     'ceiling among the groups, NCD/NSC exactly as stated), plus the flag clause of the MSA-cropping harness.',
+                     'ceiling among the groups, NCD/NSC exactly as stated), plus the flag clause of the MSA-cropping harness and the whole chain on small '
+                     'tables with symbolic MSA / buffer / threshold (message against table and real flag).',
                 ref='DESIGN.md 4/C02', note=TRUST),
     'C07': dict(text='Bounded symbolic execution of the real AbstractChunk._cleanup_pdf on symbolic hit tables: row-by-row '
                      'oracle (kept / turned into a non-detection / dropped), flag <=> count above > MAX_HITS_OKTA0, and two '
